@@ -12,6 +12,22 @@ pub fn read_and_advance<'a>(src: &'a [u8], length: usize, index: &mut usize) -> 
     result
 }
 
+/// Like [`read`], but returns `None` instead of panicking if `src` is too short.
+pub fn read_checked<'a>(src: &'a [u8], length: usize, index: &usize) -> Option<&'a [u8]> {
+    src.get(*index..index.checked_add(length)?)
+}
+
+/// Like [`read_and_advance`], but returns `None` instead of panicking if `src` is too short.
+pub fn read_and_advance_checked<'a>(
+    src: &'a [u8],
+    length: usize,
+    index: &mut usize,
+) -> Option<&'a [u8]> {
+    let result = read_checked(src, length, index)?;
+    *index += length;
+    Some(result)
+}
+
 #[cfg(test)]
 pub mod test_helper {
     use crate::{HashChain, Seed};
